@@ -1,7 +1,7 @@
 (* C12 - Listeners and the model are first-class callback providers, attached once.  Statements only. *)
 From Coq Require Import List Arith Bool.
 Import ListNotations.
-From PySM Require Import Impl.Engine Impl.Registry Impl.History Impl.Process Proofs.EngineProofs Proofs.RegistryProofs Proofs.ProcessProofs Proofs.RegroupRefuted.
+From PySM Require Import Impl.Engine Impl.Registry Impl.History Impl.Process Proofs.EngineProofs Proofs.RegistryProofs Proofs.ProcessProofs Proofs.RegroupRefuted Proofs.RegistryParity.
 
 (* parity: an action / validator name gets exactly one wrapper per provider of the resolution round
    that has the attribute, with the spec's event filter and expected value - machine, model,
@@ -14,6 +14,27 @@ Theorem C12_one_wrapper_per_provider :
           (filter (fun p => has_attr provs p (sp_name sp)) round).
 Proof. exact one_wrapper_per_provider. Qed.
 Print Assumptions C12_one_wrapper_per_provider.
+
+(* attachment time does not matter for actions and validators: the wrappers of every group but the
+   guard list are exactly one per (callback spec, provider that has the attribute) over all providers
+   attached so far, however they were spread over resolution rounds (constructor, add_listener calls) *)
+Theorem C12_callbacks_independent_of_attachment_time :
+  forall provs t g rounds1 rounds2,
+    g <> GCond ->
+    (forall p, In p (concat rounds1) <-> In p (concat rounds2)) ->
+    forall w, In w (resolve_group provs g (trans_specs t g) rounds1) <->
+              In w (resolve_group provs g (trans_specs t g) rounds2).
+Proof. exact transition_wrappers_independent_of_rounds. Qed.
+Print Assumptions C12_callbacks_independent_of_attachment_time.
+
+Theorem C12_state_callbacks_independent_of_attachment_time :
+  forall provs s sd g rounds1 rounds2,
+    g <> GCond ->
+    (forall p, In p (concat rounds1) <-> In p (concat rounds2)) ->
+    forall w, In w (resolve_group provs g (state_specs s sd g) rounds1) <->
+              In w (resolve_group provs g (state_specs s sd g) rounds2).
+Proof. exact state_wrappers_independent_of_rounds. Qed.
+Print Assumptions C12_state_callbacks_independent_of_attachment_time.
 
 (* a guard name provided by several objects is one entry over all of them ... *)
 Theorem C12_guard_over_all_providers :
